@@ -2,6 +2,7 @@ package main
 
 import (
 	"fmt"
+	"strings"
 	"io/ioutil"
 	"os"
 	"path/filepath"
@@ -18,6 +19,11 @@ type c02Case struct {
 func runC02(ctx *Ctx, c c02Case) {
 	dir := newDir()
 	defer os.RemoveAll(dir)
+	for _, in := range c.Chain.Inputs {
+		if strings.HasPrefix(in, "../") {
+			defer os.RemoveAll(filepath.Join(dir, filepath.Dir(in)))
+		}
+	}
 	pre := c.Chain.sources()
 	for i, p := range c.Pre {
 		pre[p] = fmt.Sprintf("GARBAGE-%d\n", i)
@@ -205,6 +211,17 @@ func checkC02(ctx *Ctx) {
 	}
 	// fixed: everything pre-exists; one of two outputs of a two-output task pre-exists
 	cases = append(cases, c02Case{Chain: Chain{Inputs: []string{"a.txt"}, Levels: []Level{{TwoOut: true}, {}}, Max: 2}, Pre: []string{"a.txt.L0.aux.txt"}})
+	// outputs outside the working directory (their paths contain ../): the existence check must look at the
+	// declared path, not at its image below the temp dir
+	for k, prePorts := range [][]int{{0}, {1}, {}} {
+		in := fmt.Sprintf("../c02up_%d_%d/a.txt", os.Getpid(), k)
+		ch := Chain{Inputs: []string{in}, Levels: []Level{{}, {}}, Max: 2}
+		c := c02Case{Chain: ch}
+		for _, l := range prePorts {
+			c.Pre = append(c.Pre, ch.pathAt(in, l))
+		}
+		cases = append(cases, c)
+	}
 	parallel(len(cases), 8, func(i int) {
 		if ctx.TimeLeft() {
 			runC02(ctx, cases[i])
